@@ -52,9 +52,10 @@ def fieldOp (op : String) (a : List String) : Option (List String) :=
           let q := fdiv uu vv
           let sq := isSquare q
           [kv "chk" (b2s (canonP r.1 ∧ r.2 = (if sq then 1 else 0) ∧
-            fmul y y = (if sq then q else fmul Rfc9380.Z q)))]
+            fmul y y = (if sq then q else fmul Rfc9380.Z q))),
+           kv "s_f" (if sq then "1" else "0"), kv "s_sq" (natHex (if sq then q else fmul Rfc9380.Z q) 32)]
         else []
-      some (rv r.1 ++ [kv "f" (toString r.2)] ++ chk)
+      some (rv r.1 ++ [kv "f" (toString r.2), kv "sq" (natHex (fmul (fromMontP r.1) (fromMontP r.1)) 32)] ++ chk)
   | "F.sgn", [x] => let x := parseL4 x
       some ([kv "r" (toString (FL.sgn0 x))] ++ (if canonP x then [kv "s_r" (toString (fromMontP x % 2))] else []))
   | "F.iszero", [x] => let x := parseL4 x
